@@ -3,7 +3,7 @@ from checks import rtcommon
 
 
 def run(ctx):
-    args = (["--n", "500", "--maxdim", "33", "--exh", "1"] if ctx.quick else ["--n", "8000", "--maxdim", "96", "--exh", "2"])
+    args = (["--n", "500", "--maxdim", "33", "--exh", "1"] if ctx.quick else ["--n", "32000", "--maxdim", "96", "--exh", "2"])
     return rtcommon.run_contract(
         ctx, "c11", args, class_keys=("api", "c", "p", "q", "cls"), trace_module="DctTrace",
         rule="scenario = baseline.Encode / extended.Encode (8-bit 1+3 components, 12-bit 1 component) then the matching Decode; every "
